@@ -748,10 +748,15 @@ impl<'a> Gen<'a> {
         let c = self.rng.below(100);
         if c < 30 && (hr || self.rng.chance(6)) {
             self.ready_cycle();
-        } else if c < 42 && nrec > 0 {
+        } else if c < 42 && (nrec > 0 || (maxn > 0 && self.rng.chance(15))) {
             // persistence notice for a random issued number (any batching)
             let lo = maxn + 1 - nrec.min(maxn);
-            let n = if self.violate && self.rng.chance(5) { maxn + 1 + self.rng.below(2) } else { self.rg(lo.max(1), maxn) };
+            let mut n = if self.violate && self.rng.chance(5) { maxn + 1 + self.rng.below(2) } else if nrec == 0 { self.rg(1, maxn) } else { self.rg(lo.max(1), maxn) };
+            if lo > 1 && nrec > 0 && self.rng.chance(20) {
+                // a late or repeated notice, or the truthful notice for a Ready whose record the node discarded when it
+                // became leader: a number below the oldest outstanding record
+                n = self.rg(1, lo - 1);
+            }
             self.run(format!("on_persist_ready {}", n));
         } else if c < 52 && self.handed_last > applied {
             if self.rng.chance(30) {
